@@ -74,6 +74,7 @@ DEFAULT_SPEC = {
                            #    per such gene cover only the shared exons (locally ambiguous) and have a secondary record on the paralog
     "tiny_exon": 0,        # 1: the first chromosome gets an annotated gene one of whose isoforms has a 1-bp middle exon (with reads)
     "hash_names": 0,       # 1: every third read name starts with '#' (a valid QNAME character)
+    "softmask": 0,         # 1: the reference is soft-masked: every second 2-kb window of every chromosome is written in lower case
     "group_tag": "RG",     # BAM tag that carries the group (C09: --read_group tag:<TAG>)
     "twin_chr": 0,         # 1: extra chromosome that is a copy of the first one (same coordinates and strands, own gene ids and reads);
                            #    2: its unannotated locus (novel_locus) carries splice sites of the other strand
@@ -503,6 +504,9 @@ def generate(spec):
         names.append(dname)
         cidx[dname] = len(chroms) - 1
     chroms = [(n, "".join(sq)) for n, sq in chroms]
+    if s["softmask"]:
+        chroms = [(n, "".join(sq[i:i + 2000].lower() if (i // 2000) % 2 else sq[i:i + 2000] for i in range(0, len(sq), 2000)))
+                  for n, sq in chroms]
 
     # ---- reads
     rr = random.Random("%d/reads" % s["seed"])
@@ -1120,7 +1124,7 @@ def random_spec(rng, profile="small"):
              novel_gene_overlap=rng.choice([0, 0, 1]), chr_naming=rng.choice([0, 0, 0, 1]), split_gene=rng.choice([0, 0, 1]),
              decoy_chr=rng.choice([0, 0, 1]), novel_locus=rng.choice([0, 0, 1]), twin_chr=rng.choice([0, 0, 0, 1, 2]),
              bridge=rng.choice([0, 0, 0, 2]), outside_exon=rng.choice([0, 0, 0, 1]), ambig_multi=rng.choice([0, 0, 0, 3]),
-             sq_order=rng.choice([0, 0, 1]), tiny_exon=rng.choice([0, 0, 0, 1]))
+             sq_order=rng.choice([0, 0, 1]), tiny_exon=rng.choice([0, 0, 0, 1]), softmask=rng.choice([0, 0, 0, 1]))
     return s
 
 
